@@ -25,7 +25,7 @@ func init() {
 		Technique: "load-path panic reachability over the module call graph + shape-check dominance (every successful return dominated by each comparison of saved and rebuilt shape) + canonical-archive structure",
 		Explanation: "Decides: (1) no explicit panic/log.Panic/log.Fatal/os.Exit and no unchecked type assertion is reachable from any LoadCheckpoint, UnmarshalJSON of checkpointed types, the archive reader or the codec's decode path, except the allow-listed spec-hash marshal failure (it depends on the rebuilt Spec, not on the archive) and Buffer.Restore where every call on a load path is dominated by a length-against-capacity test; " +
 			"(2) in each LoadCheckpoint every `return nil` is dominated by the passing branch of each required shape comparison (spec hash; capacity of the buffer being restored; storage capacity and unit size; log2 page size; generator kind; empty queues; known handler for every decoded event; build id; entity coverage in both directions) and the failing branch returns an error; " +
-			"(3) the archive writer iterates a sorted copy, rejects duplicates, and writes only constant ModTime/Mode header fields; no wall-clock/random source in any SaveCheckpoint closure; (restore-loop-total) a loop on a load path that deposits decoded entries into the restored object deposits on every iteration it completes (no saved entry is skipped, so save/load/save cannot shrink); (4) fresh decode targets as in C06. (header-sized-allocation) no buffer on a load path is allocated with a size taken from a tar header.",
+			"(3) the archive writer iterates a sorted copy, rejects duplicates, and writes only constant ModTime/Mode header fields; no wall-clock/random source in any SaveCheckpoint closure; (restore-loop-total) a loop on a load path that deposits decoded entries into the restored object deposits on every iteration it completes (no saved entry is skipped, so save/load/save cannot shrink); (4) fresh decode targets as in C06. (header-sized-allocation) no buffer on a load path is allocated with a size taken from a tar header. (gzip-drained) the archive reader reads the gzip stream to its end after the tar entries, so the checksum trailer is verified; (bounded-decoded-allocation) a count read from the checkpoint stream is compared with a bound before it sizes a map or slice.",
 		NotDecided:  "byte identity of real archives; behaviour of compress/gzip and archive/tar; implicit panics on arithmetic over decoded integers (none of the load paths indexes or divides by a decoded value today — checked by the unchecked-assertion and index audit only for explicit forms).",
 		Assumptions: []string{"encoding/json and the standard archive packages return errors rather than panic on malformed input"},
 	}, runC07)
@@ -635,6 +635,8 @@ func runC07(c *Ctx) {
 	sort.Slice(loadFns, func(i, j int) bool { return SSAFuncKey(loadFns[i]) < SSAFuncKey(loadFns[j]) })
 	restoreLoopTotalRule(c, "restore-loop-total", loadFns, 2)
 	headerSizedAllocRule(c, "header-sized-allocation", loadFns)
+	boundedDecodedAllocRule(c, "bounded-decoded-allocation", loadFns)
+	gzipDrainedRule(c, "gzip-drained")
 	freshDecodeRule(c, "fresh-decode-target")
 	symmetryRule(c, "save-load-symmetry")
 }
